@@ -161,8 +161,14 @@ func (r *Report) writeEvidence() error {
 	if err != nil {
 		return err
 	}
-	os.MkdirAll(filepath.Join(r.Verif, "evidence"), 0o755)
-	return os.WriteFile(filepath.Join(r.Verif, "evidence", r.Prop+".json"), data, 0o644)
+	// evidence describes /repo; a run against a scratch copy (seeded changes, selftest) must
+	// not overwrite it
+	dir := filepath.Join(r.Verif, "evidence")
+	if filepath.Clean(r.Repo) != "/repo" {
+		dir = filepath.Join(r.Verif, "replays", "evidence-of-scratch-runs")
+	}
+	os.MkdirAll(dir, 0o755)
+	return os.WriteFile(filepath.Join(dir, r.Prop+".json"), data, 0o644)
 }
 
 func countReal(os []*Obl) int {
